@@ -4,12 +4,13 @@ import HugrVerif.Build
 namespace HugrVerif.BuildLocal
 open HugrVerif HugrVerif.Build HugrVerif.Build.BuildState HugrVerif.Store
 
-/-- the invariant of a builder state whose builders are all plain dataflow-graph builders -/
+/-- the invariant of a builder state none of whose builders is a basic-block builder (the only builder class that
+    overrides `_wire_up_port`) -/
 structure BInv (st : BuildState) : Prop where
   stores : ∀ hid s, st.getHugr hid = .ok s → LInvS s
-  kinds : ∀ bi r, st.getB bi = .ok r → r.kind = .dfg
+  kinds : ∀ bi r, st.getB bi = .ok r → r.kind ≠ .block
 
-theorem ctx_of_dfg (r : BRec) (h : r.kind = .dfg) : r.ctx = none := by simp [BRec.ctx, h]
+theorem ctx_of_dfg (r : BRec) (h : r.kind ≠ .block) : r.ctx = none := by simp [BRec.ctx, h]
 
 theorem getHugr_lt (st : BuildState) (hid : Nat) (s : St) (h : st.getHugr hid = .ok s) : hid < st.hugrs.length := by
   unfold BuildState.getHugr at h
@@ -51,7 +52,7 @@ theorem binv_newHugr (st : BuildState) (s : St) (hb : BInv st) (hs : LInvS s) : 
         apply List.getElem?_eq_none; simp; omega
       simp [this] at hx
 
-theorem binv_newB (st : BuildState) (r : BRec) (hb : BInv st) (hk : r.kind = .dfg) : BInv (st.newB r).1 := by
+theorem binv_newB (st : BuildState) (r : BRec) (hb : BInv st) (hk : r.kind ≠ .block) : BInv (st.newB r).1 := by
   refine ⟨fun hid s h => hb.stores hid s h, ?_⟩
   intro bi x hx
   unfold BuildState.newB BuildState.getB at hx
@@ -65,7 +66,7 @@ theorem binv_newB (st : BuildState) (r : BRec) (hb : BInv st) (hk : r.kind = .df
         apply List.getElem?_eq_none; simp; omega
       simp [this] at hx
 
-theorem binv_setB (st : BuildState) (bi : Nat) (r : BRec) (hb : BInv st) (hk : r.kind = .dfg) : BInv (st.setB bi r) := by
+theorem binv_setB (st : BuildState) (bi : Nat) (r : BRec) (hb : BInv st) (hk : r.kind ≠ .block) : BInv (st.setB bi r) := by
   refine ⟨fun hid s h => hb.stores hid s h, ?_⟩
   intro bj x hx
   unfold BuildState.setB BuildState.getB at hx
@@ -107,8 +108,8 @@ theorem linvS_initIO (s s' : St) (hs : LInvS s) (op : Op) (p : Nat) (i o : Build
         subst e
         exact linvS_addNode s1 s2 (linvS_addNode s s1 hs _ _ _ _ n1 h1) _ _ _ _ n2 h2
 
-theorem binv_newStandaloneDf (st st' : BuildState) (hb : BInv st) (op : Op) (bi : Nat)
-    (h : newStandaloneDf st .dfg op = .ok (st', bi)) : BInv st' := by
+theorem binv_newStandaloneDf (st st' : BuildState) (hb : BInv st) (kind : BKind) (hk : kind ≠ .block) (op : Op) (bi : Nat)
+    (h : newStandaloneDf st kind op = .ok (st', bi)) : BInv st' := by
   unfold newStandaloneDf at h
   simp only [] at h
   split at h
@@ -117,7 +118,7 @@ theorem binv_newStandaloneDf (st st' : BuildState) (hb : BInv st) (op : Op) (bi 
     injection h with h
     have e := (Prod.mk.inj h).1
     subst e
-    exact binv_newB _ _ (binv_newHugr st s hb (linvS_initIO _ s (linvS_init op []) op _ i o hio)) rfl
+    exact binv_newB _ _ (binv_newHugr st s hb (linvS_initIO _ s (linvS_init op []) op _ i o hio)) hk
 
 theorem binv_addOp (st st' : BuildState) (hb : BInv st) (bi : Nat) (op : Op) (ws : List Wire) (md : Serial.Meta)
     (hd : Build.Handle) (h : addOp st bi op ws md = .ok (st', hd)) : BInv st' := by
@@ -173,27 +174,161 @@ theorem linvS_setOutputsStore (s s' : St) (hs : LInvS s) (parent output : Nat) (
           · cases h
           · exact linvS_setOp s1 s' i1 parent _ h
 
+theorem binv_setOutputsBase (st st' : BuildState) (hb : BInv st) (bi : Nat) (ws : List Wire)
+    (h : setOutputsBase st bi ws = .ok st') : BInv st' := by
+  unfold setOutputsBase at h
+  split at h
+  · cases h
+  · rename_i r hr
+    split at h
+    · cases h
+    · rename_i s hs
+      split at h
+      · cases h
+      · rename_i s1 h1
+        injection h with h; subst h
+        rw [ctx_of_dfg r (hb.kinds bi r hr)] at h1
+        exact binv_setHugr st r.hid s1 hb (linvS_setOutputsStore s s1 (hb.stores r.hid s hs) _ _ ws h1)
+
+theorem binv_setParentOutputCount (st st' : BuildState) (hb : BInv st) (bi count : Nat)
+    (h : setParentOutputCount st bi count = .ok st') : BInv st' := by
+  unfold setParentOutputCount at h
+  split at h
+  · cases h
+  · rename_i r hr
+    split at h
+    · cases h
+    · rename_i s hs
+      split at h
+      · cases h
+      · rename_i s1 h1
+        injection h with h; subst h
+        unfold liftS at h1
+        cases hu : Store.updateNodeOuts s r.parent.1 count with
+        | error e => simp [hu] at h1
+        | ok su =>
+          simp only [hu] at h1
+          injection h1 with h1; subst h1
+          exact binv_setB _ bi _ (binv_setHugr st r.hid su hb
+            (linvS_updateNodeOuts s su (hb.stores r.hid s hs) _ _ hu)) (hb.kinds bi r hr)
+
 theorem binv_setOutputsDfg (st st' : BuildState) (hb : BInv st) (bi : Nat) (ws : List Wire)
     (h : setOutputsDfg st bi ws = .ok st') : BInv st' := by
   unfold setOutputsDfg at h
   split at h
   · cases h
   · rename_i st1 hbase
-    have b1 : BInv st1 := by
-      unfold setOutputsBase at hbase
-      split at hbase
-      · cases hbase
-      · rename_i r hr
-        split at hbase
-        · cases hbase
-        · rename_i s hs
-          split at hbase
-          · cases hbase
-          · rename_i s1 h1
-            injection hbase with hbase; subst hbase
-            rw [ctx_of_dfg r (hb.kinds bi r hr)] at h1
-            exact binv_setHugr st r.hid s1 hb (linvS_setOutputsStore s s1 (hb.stores r.hid s hs) _ _ ws h1)
-    unfold setParentOutputCount at h
+    exact binv_setParentOutputCount st1 st' (binv_setOutputsBase st st1 hb bi ws hbase) bi _ h
+
+theorem binv_setOutputsFunction (st st' : BuildState) (hb : BInv st) (bi : Nat) (ws : List Wire)
+    (h : setOutputsFunction st bi ws = .ok st') : BInv st' := by
+  unfold setOutputsFunction at h
+  split at h
+  · cases h
+  · split at h
+    · cases h
+    · split at h
+      · cases h
+      · exact binv_setOutputsBase st st' hb bi ws h
+      · split at h
+        · cases h
+        · split at h
+          · exact binv_setOutputsBase st st' hb bi ws h
+          · cases h
+
+theorem binv_setOutputsTailLoop (st st' : BuildState) (hb : BInv st) (bi : Nat) (ws : List Wire)
+    (h : setOutputsTailLoop st bi ws = .ok st') : BInv st' := by
+  unfold setOutputsTailLoop at h
+  split at h
+  · cases h
+  · rename_i st1 hbase
+    have b1 := binv_setOutputsBase st st1 hb bi ws hbase
+    split at h
+    · cases h
+    · split at h
+      · cases h
+      · split at h
+        · cases h
+        · split at h
+          · cases h
+          · split at h
+            · exact binv_setParentOutputCount st1 st' b1 bi _ h
+            · cases h
+
+theorem binv_condUpdateOutputs (st st' : BuildState) (hb : BInv st) (ci : Nat) (outs : List Ty)
+    (h : condUpdateOutputs st ci outs = .ok st') : BInv st' := by
+  unfold condUpdateOutputs at h
+  split at h
+  · cases h
+  · rename_i c hc
+    split at h
+    · cases h
+    · rename_i s hs
+      split at h
+      · cases h
+      · split at h
+        · cases h
+        · rename_i s1 h1
+          have i1 := linvS_setOp s s1 (hb.stores c.hid s hs) _ _ h1
+          split at h
+          · cases h
+          · rename_i s2 h2
+            injection h with h; subst h
+            unfold liftS at h2
+            cases hu : Store.updateNodeOuts s1 c.parent.1 outs.length with
+            | error e => simp [hu] at h2
+            | ok su =>
+              simp only [hu] at h2
+              injection h2 with h2; subst h2
+              exact binv_setB _ ci _ (binv_setHugr st c.hid su hb (linvS_updateNodeOuts s1 su i1 _ _ hu))
+                (hb.kinds ci c hc)
+      · split at h
+        · injection h with h; subst h; exact hb
+        · cases h
+      · cases h
+
+theorem binv_setOutputsCase (st st' : BuildState) (hb : BInv st) (bi : Nat) (ws : List Wire)
+    (h : setOutputsCase st bi ws = .ok st') : BInv st' := by
+  unfold setOutputsCase at h
+  split at h
+  · cases h
+  · rename_i st1 hbase
+    have b1 := binv_setOutputsBase st st1 hb bi ws hbase
+    split at h
+    · cases h
+    · split at h
+      · injection h with h; subst h; exact b1
+      · split at h
+        · cases h
+        · split at h
+          · cases h
+          · exact binv_condUpdateOutputs st1 st' b1 _ _ h
+
+theorem binv_setOutputs (st st' : BuildState) (hb : BInv st) (bi : Nat) (ws : List Wire)
+    (h : Build.setOutputs st bi ws = .ok st') : BInv st' := by
+  unfold Build.setOutputs at h
+  split at h
+  · cases h
+  · rename_i r hr
+    have hk := hb.kinds bi r hr
+    split at h
+    · exact binv_setOutputsDfg st st' hb bi ws h
+    · exact binv_setOutputsDfg st st' hb bi ws h
+    · exact binv_setOutputsFunction st st' hb bi ws h
+    · exact binv_setOutputsCase st st' hb bi ws h
+    · exact binv_setOutputsCase st st' hb bi ws h
+    · exact binv_setOutputsCase st st' hb bi ws h
+    · rename_i hkb; exact absurd hkb hk
+    · exact binv_setOutputsTailLoop st st' hb bi ws h
+    · cases h
+
+theorem binv_declareOutputs (st st' : BuildState) (hb : BInv st) (bi : Nat) (outs : List Ty)
+    (h : declareOutputs st bi outs = .ok st') : BInv st' := by
+  unfold declareOutputs at h
+  split at h
+  · cases h
+  · rename_i st1 h1
+    have b1 := binv_setParentOutputCount st st1 hb bi _ h1
     split at h
     · cases h
     · rename_i r hr
@@ -202,16 +337,13 @@ theorem binv_setOutputsDfg (st st' : BuildState) (hb : BInv st) (bi : Nat) (ws :
       · rename_i s hs
         split at h
         · cases h
-        · rename_i s1 h1
-          injection h with h; subst h
-          unfold liftS at h1
-          cases hu : Store.updateNodeOuts s r.parent.1 ws.length with
-          | error e => simp [hu] at h1
-          | ok su =>
-            simp only [hu] at h1
-            injection h1 with h1; subst h1
-            exact binv_setB _ bi _ (binv_setHugr st1 r.hid su b1
-              (linvS_updateNodeOuts s su (b1.stores r.hid s hs) _ _ hu)) (b1.kinds bi r hr)
+        · split at h
+          · cases h
+          · split at h
+            · cases h
+            · rename_i s1 hso
+              injection h with h; subst h
+              exact binv_setHugr st1 r.hid s1 b1 (linvS_setOp s s1 (b1.stores r.hid s hs) _ _ hso)
 
 theorem linvS_newNestedStore (s s' : St) (hs : LInvS s) (op : Op) (parent : Nat) (p i o : Build.Handle)
     (h : newNestedStore s op parent = .ok (s', p, i, o)) : LInvS s' := by
@@ -230,66 +362,411 @@ theorem linvS_newNestedStore (s s' : St) (hs : LInvS s) (op : Op) (parent : Nat)
       subst e
       exact linvS_initIO sa s2 (linvS_addNode s sa hs _ _ _ _ na ha) op na i2 o2 hio
 
-theorem binv_addNested (st st' : BuildState) (hb : BInv st) (bi nb : Nat) (ws : List Wire)
-    (h : addNested st bi ws = .ok (st', nb)) : BInv st' := by
-  unfold addNested at h
+theorem binv_newNestedDf (st st' : BuildState) (hb : BInv st) (kind : BKind) (hk : kind ≠ .block) (hid : Nat) (op : Op)
+    (parent : Nat) (pc : Option Nat) (nb : Nat) (h : newNestedDf st kind hid op parent pc = .ok (st', nb)) : BInv st' := by
+  unfold newNestedDf at h
+  split at h
+  · cases h
+  · rename_i s hs
+    split at h
+    · cases h
+    · rename_i s1 p i o hst
+      injection h with h
+      have e := (Prod.mk.inj h).1
+      subst e
+      exact binv_newB _ _ (binv_setHugr st hid s1 hb
+        (linvS_newNestedStore s s1 (hb.stores hid s hs) _ _ p i o hst)) hk
+
+theorem binv_wireInto (st st' : BuildState) (hb : BInv st) (bi node : Nat) (ws : List Wire)
+    (h : wireInto st bi node ws = .ok st') : BInv st' := by
+  unfold wireInto at h
   split at h
   · cases h
   · rename_i r hr
     split at h
     · cases h
-    · rename_i tys _
+    · rename_i s hs
       split at h
       · cases h
+      · rename_i s1 tys1 h1
+        injection h with h; subst h
+        rw [ctx_of_dfg r (hb.kinds bi r hr)] at h1
+        exact binv_setHugr st r.hid s1 hb (linvS_wireUp s s1 (hb.stores r.hid s hs) _ ws tys1 h1)
+
+theorem binv_addNested (st st' : BuildState) (hb : BInv st) (bi nb : Nat) (ws : List Wire)
+    (h : addNested st bi ws = .ok (st', nb)) : BInv st' := by
+  unfold addNested at h
+  split at h
+  · cases h
+  · split at h
+    · cases h
+    · split at h
+      · cases h
       · rename_i st1 nb1 hn
-        have b1 : BInv st1 := by
-          unfold newNestedDf at hn
-          split at hn
-          · cases hn
-          · rename_i s hs
-            split at hn
-            · cases hn
-            · rename_i s1 p i o hst
-              injection hn with hn
-              have e := (Prod.mk.inj hn).1
-              subst e
-              exact binv_newB _ _ (binv_setHugr st r.hid s1 hb
-                (linvS_newNestedStore s s1 (hb.stores r.hid s hs) _ _ p i o hst)) rfl
+        have b1 := binv_newNestedDf st st1 hb .dfg (by decide) _ _ _ _ nb1 hn
         split at h
         · cases h
-        · rename_i nr hnr
-          split at h
+        · split at h
           · cases h
           · rename_i st2 hw
             injection h with h
             have e := (Prod.mk.inj h).1
             subst e
-            unfold wireInto at hw
-            split at hw
-            · cases hw
-            · rename_i r2 hr2
-              split at hw
-              · cases hw
-              · rename_i s hs
-                split at hw
-                · cases hw
-                · rename_i s1 tys1 h1
-                  injection hw with hw; subst hw
-                  rw [ctx_of_dfg r2 (b1.kinds bi r2 hr2)] at h1
-                  exact binv_setHugr st1 r2.hid s1 b1 (linvS_wireUp s s1 (b1.stores r2.hid s hs) _ ws tys1 h1)
+            exact binv_wireInto st1 st2 b1 bi _ ws hw
 
+theorem binv_addTailLoop (st st' : BuildState) (hb : BInv st) (bi nb : Nat) (ji rest : List Wire)
+    (h : addTailLoop st bi ji rest = .ok (st', nb)) : BInv st' := by
+  unfold addTailLoop at h
+  split at h
+  · cases h
+  · split at h
+    · cases h
+    · split at h
+      · cases h
+      · split at h
+        · cases h
+        · rename_i st1 nb1 hn
+          have b1 := binv_newNestedDf st st1 hb .tailLoop (by decide) _ _ _ _ nb1 hn
+          split at h
+          · cases h
+          · split at h
+            · cases h
+            · rename_i st2 hw
+              injection h with h
+              have e := (Prod.mk.inj h).1
+              subst e
+              exact binv_wireInto st1 st2 b1 bi _ _ hw
+
+theorem binv_trackedAdd (st st' : BuildState) (hb : BInv st) (bi : Nat) (op : Op) (args : List ComWire)
+    (md : Serial.Meta) (hd : Build.Handle) (h : trackedAdd st bi op args md = .ok (st', hd)) : BInv st' := by
+  unfold trackedAdd at h
+  split at h
+  · cases h
+  · split at h
+    · cases h
+    · rename_i ws _
+      split at h
+      · cases h
+      · rename_i st1 h1 ha
+        have b1 := binv_addOp st st1 hb bi op ws md h1 ha
+        split at h
+        · cases h
+        · rename_i r1 hr1
+          injection h with h
+          have e := (Prod.mk.inj h).1
+          subst e
+          exact binv_setB st1 bi _ b1 (b1.kinds bi r1 hr1)
+
+theorem binv_addCom (st st' : BuildState) (hb : BInv st) (bi : Nat) (op : Op) (args : List ComWire)
+    (md : Serial.Meta) (hd : Build.Handle) (h : addCom st bi op args md = .ok (st', hd)) : BInv st' := by
+  unfold addCom at h
+  split at h
+  · cases h
+  · split at h
+    · exact binv_trackedAdd st st' hb bi op args md hd h
+    · split at h
+      · cases h
+      · rename_i ws _
+        exact binv_addOp st st' hb bi op ws md hd h
+
+theorem binv_extend (bi : Nat) : ∀ (coms : List (Op × List ComWire)) (st st' : BuildState) (hs : List Build.Handle),
+    BInv st → Build.extend bi st coms = .ok (st', hs) → BInv st' := by
+  intro coms
+  induction coms with
+  | nil =>
+    intro st st' hs hb h
+    simp only [Build.extend] at h
+    injection h with h
+    rw [← (Prod.mk.inj h).1]; exact hb
+  | cons c cs ih =>
+    intro st st' hs hb h
+    obtain ⟨op, args⟩ := c
+    simp only [Build.extend] at h
+    split at h
+    · cases h
+    · rename_i st1 h1 ha
+      split at h
+      · cases h
+      · rename_i st2 hs2 he
+        injection h with h
+        have e := (Prod.mk.inj h).1
+        subst e
+        exact ih st1 st2 hs2 (binv_addCom st st1 hb bi op args [] h1 ha) he
+
+theorem binv_trackWire (st st' : BuildState) (hb : BInv st) (bi : Nat) (w : Wire) (i : Nat)
+    (h : trackWire st bi w = .ok (st', i)) : BInv st' := by
+  unfold trackWire at h
+  split at h
+  · cases h
+  · rename_i r hr
+    injection h with h
+    have e := (Prod.mk.inj h).1
+    subst e
+    exact binv_setB st bi _ hb (hb.kinds bi r hr)
+
+theorem binv_trackWires (bi : Nat) : ∀ (ws : List Wire) (st st' : BuildState) (is : List Nat),
+    BInv st → trackWires bi st ws = .ok (st', is) → BInv st' := by
+  intro ws
+  induction ws with
+  | nil =>
+    intro st st' is hb h
+    simp only [trackWires] at h
+    injection h with h
+    rw [← (Prod.mk.inj h).1]; exact hb
+  | cons w ws ih =>
+    intro st st' is hb h
+    simp only [trackWires] at h
+    split at h
+    · cases h
+    · rename_i st1 i1 ht
+      split at h
+      · cases h
+      · rename_i st2 is2 he
+        injection h with h
+        have e := (Prod.mk.inj h).1
+        subst e
+        exact ih st1 st2 is2 (binv_trackWire st st1 hb bi w i1 ht) he
+
+theorem binv_untrackWire (st st' : BuildState) (hb : BInv st) (bi i : Nat) (w : Wire)
+    (h : untrackWire st bi i = .ok (st', w)) : BInv st' := by
+  unfold untrackWire at h
+  split at h
+  · cases h
+  · rename_i r hr
+    split at h
+    · cases h
+    · injection h with h
+      have e := (Prod.mk.inj h).1
+      subst e
+      exact binv_setB st bi _ hb (hb.kinds bi r hr)
+
+theorem binv_setIndexedOutputs (st st' : BuildState) (hb : BInv st) (bi : Nat) (args : List ComWire)
+    (h : setIndexedOutputs st bi args = .ok st') : BInv st' := by
+  unfold setIndexedOutputs at h
+  split at h
+  · cases h
+  · split at h
+    · cases h
+    · exact binv_setOutputsDfg st st' hb bi _ h
+
+theorem binv_setTrackedOutputs (st st' : BuildState) (hb : BInv st) (bi : Nat)
+    (h : setTrackedOutputs st bi = .ok st') : BInv st' := by
+  unfold setTrackedOutputs at h
+  split at h
+  · cases h
+  · exact binv_setOutputsDfg st st' hb bi _ h
+
+theorem linvS_addOrderLink (s s' : St) (hs : LInvS s) (a b : Nat) (h : Store.addOrderLink s a b = .ok s') : LInvS s' := by
+  obtain ⟨b1, b2, b3, b4, _⟩ := addOrderLink_loc s s' hs.links a b h
+  refine ⟨b1, addOrderLink_free s s' hs.free a b h, ?_⟩
+  refine locInv_step (hframe_of_grow b2 b4) hs.loc ?_
+  intro l hm hn hv
+  rcases b3 l hm with h' | h'
+  · exact absurd h' hn
+  · subst h'; simp at hv
+
+
+/-! ### conditionals, module-level definitions -/
+
+theorem binv_condCases (hid self root : Nat) : ∀ (n : Nat) (st st' : BuildState) (caseId : Nat)
+    (acc cs : List (Nat × Bool)), BInv st → condCases hid self root st caseId n acc = .ok (st', cs) → BInv st' := by
+  intro n
+  induction n with
+  | zero =>
+    intro st st' caseId acc cs hb h
+    simp only [condCases] at h
+    injection h with h
+    rw [← (Prod.mk.inj h).1]; exact hb
+  | succ n ih =>
+    intro st st' caseId acc cs hb h
+    simp only [condCases] at h
+    split at h
+    · cases h
+    · split at h
+      · cases h
+      · split at h
+        · cases h
+        · split at h
+          · cases h
+          · rename_i st1 cb hn
+            exact ih st1 st' _ _ cs (binv_newNestedDf st st1 hb .case (by decide) _ _ _ _ cb hn) h
+
+theorem binv_condInit (st st' : BuildState) (hb : BInv st) (hid : Nat) (root : Build.Handle) (n ci : Nat)
+    (h : condInit st hid root n = .ok (st', ci)) : BInv st' := by
+  unfold condInit at h
+  simp only [] at h
+  split at h
+  · cases h
+  · rename_i st2 cs hc
+    injection h with h
+    rw [← (Prod.mk.inj h).1]
+    have b1 : BInv (st.newB { kind := .conditional, hid, parent := root }).1 := binv_newB st _ hb (by simp)
+    exact binv_setB _ _ _ (binv_condCases hid _ root.1 n _ st2 0 [] cs b1 hc) (by simp)
+
+theorem binv_condNewNested (st st' : BuildState) (hb : BInv st) (hid : Nat) (sm : SumTy) (other : List Ty)
+    (parent ci : Nat) (h : condNewNested st hid sm other parent = .ok (st', ci)) : BInv st' := by
+  unfold condNewNested at h
+  split at h
+  · cases h
+  · rename_i s hs
+    unfold liftS at h
+    cases ha : Store.addNode s (.conditional sm other none) (some parent) none [] with
+    | error e => simp [ha] at h
+    | ok ra =>
+      obtain ⟨sa, na⟩ := ra
+      simp only [ha] at h
+      exact binv_condInit _ st' (binv_setHugr st hid sa hb
+        (linvS_addNode s sa (hb.stores hid s hs) _ _ _ _ na ha)) hid _ _ ci h
+
+theorem binv_addConditional (st st' : BuildState) (hb : BInv st) (bi ci : Nat) (ws : List Wire)
+    (h : addConditional st bi ws = .ok (st', ci)) : BInv st' := by
+  unfold addConditional at h
+  split at h
+  · cases h
+  · split at h
+    · cases h
+    · split at h
+      · cases h
+      · split at h
+        · cases h
+        · rename_i st1 cb hn
+          have b1 := binv_condNewNested st st1 hb _ _ _ _ cb hn
+          split at h
+          · cases h
+          · split at h
+            · cases h
+            · rename_i st2 hw
+              injection h with h
+              rw [← (Prod.mk.inj h).1]
+              exact binv_wireInto st1 st2 b1 bi _ ws hw
+
+theorem binv_addCase (st st' : BuildState) (hb : BInv st) (ci : Nat) (k : Int) (cb : Nat)
+    (h : addCase st ci k = .ok (st', cb)) : BInv st' := by
+  unfold addCase at h
+  split at h
+  · cases h
+  · rename_i c hc
+    split at h
+    · cases h
+    · split at h
+      · cases h
+      · split at h
+        · cases h
+        · injection h with h
+          rw [← (Prod.mk.inj h).1]
+          exact binv_setB st ci _ hb (hb.kinds ci c hc)
+
+theorem binv_ifElseOf (st st' : BuildState) (hb : BInv st) (kind : BKind) (hk : kind ≠ .block) (cb nb : Nat)
+    (h : ifElseOf st kind cb = .ok (st', nb)) : BInv st' := by
+  unfold ifElseOf at h
+  split at h
+  · cases h
+  · injection h with h
+    rw [← (Prod.mk.inj h).1]
+    exact binv_newB st _ hb hk
+
+theorem binv_addIf (st st' : BuildState) (hb : BInv st) (bi nb : Nat) (ws : List Wire)
+    (h : addIf st bi ws = .ok (st', nb)) : BInv st' := by
+  unfold addIf at h
+  split at h
+  · cases h
+  · rename_i st1 ci h1
+    split at h
+    · cases h
+    · rename_i st2 cb h2
+      exact binv_ifElseOf st2 st' (binv_addCase st1 st2 (binv_addConditional st st1 hb bi ci ws h1) ci 1 cb h2)
+        .ifB (by decide) cb nb h
+
+theorem binv_addElse (st st' : BuildState) (hb : BInv st) (bi nb : Nat)
+    (h : addElse st bi = .ok (st', nb)) : BInv st' := by
+  unfold addElse at h
+  split at h
+  · cases h
+  · rename_i ci _
+    split at h
+    · cases h
+    · rename_i st1 cb h1
+      exact binv_ifElseOf st1 st' (binv_addCase st st1 hb ci 0 cb h1) .elseB (by decide) cb nb h
+
+theorem binv_addPlainNode (st st' : BuildState) (hb : BInv st) (bi : Nat) (op : Op) (parent : Option Nat)
+    (hd : Build.Handle) (h : addPlainNode st bi op parent = .ok (st', hd)) : BInv st' := by
+  unfold addPlainNode at h
+  split at h
+  · cases h
+  · rename_i r hr
+    split at h
+    · cases h
+    · rename_i s hs
+      unfold liftS at h
+      cases ha : Store.addNode s op parent none [] with
+      | error e => simp [ha] at h
+      | ok ra =>
+        obtain ⟨sa, na⟩ := ra
+        simp only [ha] at h
+        injection h with h
+        rw [← (Prod.mk.inj h).1]
+        exact binv_setHugr st r.hid sa hb (linvS_addNode s sa (hb.stores r.hid s hs) _ _ _ _ na ha)
+
+theorem binv_addConst (st st' : BuildState) (hb : BInv st) (bi : Nat) (v : Value) (parent : Option Nat)
+    (hd : Build.Handle) (h : Build.addConst st bi v parent = .ok (st', hd)) : BInv st' := by
+  unfold Build.addConst at h
+  split at h
+  · cases h
+  · rename_i r hr
+    split at h
+    · cases h
+    · rename_i s hs
+      unfold liftS at h
+      cases ha : Store.addNode s (.const v) parent none [] with
+      | error e => simp [ha] at h
+      | ok ra =>
+        obtain ⟨sa, na⟩ := ra
+        simp only [ha] at h
+        injection h with h
+        rw [← (Prod.mk.inj h).1]
+        exact binv_setHugr st r.hid sa hb (linvS_addNode s sa (hb.stores r.hid s hs) _ _ _ _ na ha)
+
+theorem binv_defineFunction (st st' : BuildState) (hb : BInv st) (bi : Nat) (name : String) (ins : List Ty)
+    (outs : Option (List Ty)) (params : Option (List TypeParam)) (parent : Option Nat) (fb : Nat)
+    (h : defineFunction st bi name ins outs params parent = .ok (st', fb)) : BInv st' := by
+  unfold defineFunction at h
+  split at h
+  · cases h
+  · split at h
+    · cases h
+    · split at h
+      · cases h
+      · rename_i st1 fb1 hn
+        have b1 := binv_newNestedDf st st1 hb .function (by decide) _ _ _ _ fb1 hn
+        split at h
+        · injection h with h
+          rw [← (Prod.mk.inj h).1]; exact b1
+        · split at h
+          · cases h
+          · rename_i st2 hd
+            injection h with h
+            rw [← (Prod.mk.inj h).1]
+            exact binv_declareOutputs st1 st2 b1 fb1 _ hd
 
 /-! ### commands and programs -/
 
-/-- the sub-language: plain dataflow-graph builders — `Dfg(...)`, `add_op`, `add_nested` (any depth),
-    `set_outputs` -/
+/-- the sub-language: every builder family whose wiring is `DfBase._wire_up_port` — dataflow graphs, functions and
+    modules (definitions, declarations, constants, aliases), conditionals and if / else, tail loops, tracked dataflow
+    graphs, nested to any depth.  NOT in it: control-flow graphs and basic blocks (their `_wire_up_port` admits
+    dominator edges), `call` / `load` / `load_function` (static edges, whose locality the builders do not check)
+    and the `insert_*` family (`insert_hugr` copies the links of another HUGR). -/
 def InL : Cmd → Prop
-  | .newDfg .. => True
-  | .addOp .. => True
-  | .addNested .. => True
-  | .setOutputs .. => True
+  | .newDfg .. | .newFunction .. | .newTailLoop .. | .newTracked .. => True
+  | .addOp .. | .add .. | .extend .. => True
+  | .addNested .. | .addTailLoop .. => True
+  | .setOutputs .. | .setLoopOutputs .. | .declareOutputs .. | .addStateOrder .. => True
+  | .trackWire .. | .trackWires .. | .trackInputs .. | .untrackWire .. | .trackedWire .. => True
+  | .setIndexedOutputs .. | .setTrackedOutputs .. | .toJson .. => True
+  | .newModule .. | .newConditional .. => True
+  | .addConditional .. | .addCase .. | .addIf .. | .addElse .. | .exitConditional .. => True
+  | .defineFunction .. | .defineMain .. | .declareFunction .. => True
+  | .addConst .. | .addAliasDefn .. | .addAliasDecl .. => True
   | _ => False
-
 theorem retB_ok {b : String} {x : Except BuildErr (BuildState × Nat)} {st' : BuildState} {res : Result}
     (h : retB b x = .ok (st', res)) : ∃ st1 bi, x = .ok (st1, bi) ∧ st' = st1.bindB b bi := by
   unfold retB at h
@@ -316,6 +793,17 @@ theorem retU_ok {x : Except BuildErr BuildState} {st' : BuildState} {res : Resul
   · injection h with h
     rw [(Prod.mk.inj h).1]
 
+theorem binv_bindNodes : ∀ (ns : List String) (hs : List Build.Handle) (st : BuildState),
+    BInv st → BInv (bindNodes st ns hs) := by
+  intro ns
+  induction ns with
+  | nil => intro hs st hb; cases hs <;> exact hb
+  | cons n ns ih =>
+    intro hs st hb
+    cases hs with
+    | nil => exact hb
+    | cons x xs => exact ih xs _ (binv_bindN _ _ _ hb)
+
 theorem step_binv (enc : String) (st st' : BuildState) (c : Cmd) (res : Result) (hc : InL c) (hb : BInv st)
     (h : step enc st c = .ok (st', res)) : BInv st' := by
   cases c <;> simp only [InL] at hc
@@ -323,7 +811,34 @@ theorem step_binv (enc : String) (st st' : BuildState) (c : Cmd) (res : Result) 
     simp only [step] at h
     obtain ⟨st1, bi, e1, e2⟩ := retB_ok h
     subst e2
-    exact binv_bindB _ _ _ (binv_newStandaloneDf st st1 hb _ bi e1)
+    exact binv_bindB _ _ _ (binv_newStandaloneDf st st1 hb _ (by decide) _ bi e1)
+  case newFunction b name ins params =>
+    simp only [step] at h
+    obtain ⟨st1, bi, e1, e2⟩ := retB_ok h
+    subst e2
+    exact binv_bindB _ _ _ (binv_newStandaloneDf st st1 hb _ (by decide) _ bi e1)
+  case newTailLoop b ji rest =>
+    simp only [step] at h
+    obtain ⟨st1, bi, e1, e2⟩ := retB_ok h
+    subst e2
+    exact binv_bindB _ _ _ (binv_newStandaloneDf st st1 hb _ (by decide) _ bi e1)
+  case newTracked b tys ti =>
+    simp only [step] at h
+    split at h
+    · cases h
+    · rename_i st1 bi h1
+      have b1 := binv_newStandaloneDf st st1 hb _ (by decide) _ bi h1
+      split at h
+      · split at h
+        · rename_i ws r _ hr
+          injection h with h
+          rw [← (Prod.mk.inj h).1]
+          exact binv_bindB _ _ _ (binv_setB st1 bi _ b1 (b1.kinds bi r hr))
+        · cases h
+        · cases h
+      · injection h with h
+        rw [← (Prod.mk.inj h).1]
+        exact binv_bindB _ _ _ b1
   case addOp b n op args md =>
     simp only [step] at h
     split at h
@@ -334,6 +849,30 @@ theorem step_binv (enc : String) (st st' : BuildState) (c : Cmd) (res : Result) 
         obtain ⟨st1, hd, e1, e2⟩ := retN_ok h
         subst e2
         exact binv_bindN _ _ _ (binv_addOp st st1 hb _ op ws md hd e1)
+  case add b n op args md =>
+    simp only [step] at h
+    split at h
+    · cases h
+    · split at h
+      · cases h
+      · rename_i ws _
+        obtain ⟨st1, hd, e1, e2⟩ := retN_ok h
+        subst e2
+        exact binv_bindN _ _ _ (binv_addCom st st1 hb _ op ws md hd e1)
+  case extend b ns coms =>
+    simp only [step] at h
+    split at h
+    · cases h
+    · split at h
+      · cases h
+      · split at h
+        · cases h
+        · split at h
+          · cases h
+          · rename_i st1 hs he
+            injection h with h
+            rw [← (Prod.mk.inj h).1]
+            exact binv_bindNodes ns hs st1 (binv_extend _ _ st st1 hs hb he)
   case addNested b nb args =>
     simp only [step] at h
     split at h
@@ -344,21 +883,237 @@ theorem step_binv (enc : String) (st st' : BuildState) (c : Cmd) (res : Result) 
         obtain ⟨st1, bi, e1, e2⟩ := retB_ok h
         subst e2
         exact binv_bindB _ _ _ (binv_addNested st st1 hb _ bi ws e1)
+  case addTailLoop b nb ji rest =>
+    simp only [step] at h
+    split at h
+    · cases h
+    · split at h
+      · rename_i a c _ _
+        obtain ⟨st1, bi, e1, e2⟩ := retB_ok h
+        subst e2
+        exact binv_bindB _ _ _ (binv_addTailLoop st st1 hb _ bi a c e1)
+      · cases h
+      · cases h
   case setOutputs b args =>
+    simp only [step] at h
+    split at h
+    · cases h
+    · split at h
+      · cases h
+      · rename_i ws _
+        exact binv_setOutputs st st' hb _ ws (retU_ok h)
+  case setLoopOutputs b w args =>
+    simp only [step] at h
+    split at h
+    · cases h
+    · split at h
+      · cases h
+      · rename_i ws _
+        exact binv_setOutputsTailLoop st st' hb _ ws (retU_ok h)
+  case declareOutputs b outs =>
+    simp only [step] at h
+    split at h
+    · cases h
+    · exact binv_declareOutputs st st' hb _ outs (retU_ok h)
+  case addStateOrder b src dst =>
     simp only [step] at h
     split at h
     · cases h
     · rename_i bi r hbo
       split at h
+      · rename_i a c _ _
+        split at h
+        · cases h
+        · rename_i s hs
+          split at h
+          · cases h
+          · rename_i s1 h1
+            injection h with h
+            rw [← (Prod.mk.inj h).1]
+            unfold liftS at h1
+            cases ho : Store.addOrderLink s a.1 c.1 with
+            | error e => simp [ho] at h1
+            | ok so =>
+              simp only [ho] at h1
+              injection h1 with h1; subst h1
+              exact binv_setHugr st r.hid so hb (linvS_addOrderLink s so (hb.stores r.hid s hs) _ _ ho)
+      · cases h
+      · cases h
+  case trackWire b w =>
+    simp only [step] at h
+    split at h
+    · cases h
+    · split at h
+      · cases h
+      · split at h
+        · cases h
+        · rename_i st1 i ht
+          injection h with h
+          rw [← (Prod.mk.inj h).1]
+          exact binv_trackWire st st1 hb _ _ i ht
+  case trackWires b ws =>
+    simp only [step] at h
+    split at h
+    · cases h
+    · split at h
+      · cases h
+      · split at h
+        · cases h
+        · rename_i st1 is ht
+          injection h with h
+          rw [← (Prod.mk.inj h).1]
+          exact binv_trackWires _ _ st st1 is hb ht
+  case trackInputs b =>
+    simp only [step] at h
+    split at h
+    · cases h
+    · split at h
+      · cases h
+      · split at h
+        · cases h
+        · rename_i st1 is ht
+          injection h with h
+          rw [← (Prod.mk.inj h).1]
+          exact binv_trackWires _ _ st st1 is hb ht
+  case untrackWire b i =>
+    simp only [step] at h
+    split at h
+    · cases h
+    · split at h
+      · cases h
+      · rename_i st1 w ht
+        injection h with h
+        rw [← (Prod.mk.inj h).1]
+        exact binv_untrackWire st st1 hb _ i w ht
+  case trackedWire b i =>
+    simp only [step] at h
+    split at h
+    · cases h
+    · split at h
+      · cases h
+      · injection h with h
+        rw [← (Prod.mk.inj h).1]; exact hb
+  case setIndexedOutputs b args =>
+    simp only [step] at h
+    split at h
+    · cases h
+    · split at h
+      · cases h
+      · exact binv_setIndexedOutputs st st' hb _ _ (retU_ok h)
+  case setTrackedOutputs b =>
+    simp only [step] at h
+    split at h
+    · cases h
+    · exact binv_setTrackedOutputs st st' hb _ (retU_ok h)
+  case toJson b =>
+    simp only [step] at h
+    split at h
+    · cases h
+    · split at h
+      · cases h
+      · injection h with h
+        rw [← (Prod.mk.inj h).1]; exact hb
+
+  case newModule b =>
+    simp only [step] at h
+    injection h with h
+    rw [← (Prod.mk.inj h).1]
+    exact binv_bindB _ _ _ (binv_newB _ _ (binv_newHugr st _ hb (linvS_init .module [])) (by simp))
+  case newConditional b sm other =>
+    simp only [step] at h
+    obtain ⟨st1, bi, e1, e2⟩ := retB_ok h
+    subst e2
+    exact binv_bindB _ _ _ (binv_condInit _ st1 (binv_newHugr st _ hb (linvS_init _ [])) _ _ _ bi e1)
+  case addConditional b nb w args =>
+    simp only [step] at h
+    split at h
+    · cases h
+    · split at h
       · cases h
       · rename_i ws _
-        have e1 := retU_ok h
-        unfold Build.setOutputs at e1
-        split at e1
-        · cases e1
-        · rename_i r' hr'
-          rw [hb.kinds bi r' hr'] at e1
-          exact binv_setOutputsDfg st st' hb bi ws e1
+        obtain ⟨st1, bi, e1, e2⟩ := retB_ok h
+        subst e2
+        exact binv_bindB _ _ _ (binv_addConditional st st1 hb _ bi ws e1)
+  case addIf b nb w args =>
+    simp only [step] at h
+    split at h
+    · cases h
+    · split at h
+      · cases h
+      · rename_i ws _
+        obtain ⟨st1, bi, e1, e2⟩ := retB_ok h
+        subst e2
+        exact binv_bindB _ _ _ (binv_addIf st st1 hb _ bi ws e1)
+  case addElse b nb =>
+    simp only [step] at h
+    split at h
+    · cases h
+    · obtain ⟨st1, bi, e1, e2⟩ := retB_ok h
+      subst e2
+      exact binv_bindB _ _ _ (binv_addElse st st1 hb _ bi e1)
+  case addCase c nb k =>
+    simp only [step] at h
+    split at h
+    · cases h
+    · obtain ⟨st1, bi, e1, e2⟩ := retB_ok h
+      subst e2
+      exact binv_bindB _ _ _ (binv_addCase st st1 hb _ k bi e1)
+  case exitConditional c =>
+    simp only [step] at h
+    split at h
+    · cases h
+    · split at h
+      · cases h
+      · injection h with h
+        rw [← (Prod.mk.inj h).1]; exact hb
+  case defineFunction b nb name ins outs params parent =>
+    simp only [step] at h
+    split at h
+    · cases h
+    · split at h
+      · cases h
+      · obtain ⟨st1, bi, e1, e2⟩ := retB_ok h
+        subst e2
+        exact binv_bindB _ _ _ (binv_defineFunction st st1 hb _ _ _ _ _ _ bi e1)
+  case defineMain b nb ins =>
+    simp only [step] at h
+    split at h
+    · cases h
+    · obtain ⟨st1, bi, e1, e2⟩ := retB_ok h
+      subst e2
+      exact binv_bindB _ _ _ (binv_defineFunction st st1 hb _ _ _ _ _ _ bi e1)
+  case declareFunction b n name sig =>
+    simp only [step] at h
+    split at h
+    · cases h
+    · obtain ⟨st1, hd, e1, e2⟩ := retN_ok h
+      subst e2
+      exact binv_bindN _ _ _ (binv_addPlainNode st st1 hb _ _ _ hd e1)
+  case addConst b n v parent =>
+    simp only [step] at h
+    split at h
+    · cases h
+    · split at h
+      · cases h
+      · obtain ⟨st1, hd, e1, e2⟩ := retN_ok h
+        subst e2
+        exact binv_bindN _ _ _ (binv_addConst st st1 hb _ _ _ hd e1)
+  case addAliasDefn b n name t parent =>
+    simp only [step] at h
+    split at h
+    · cases h
+    · split at h
+      · cases h
+      · obtain ⟨st1, hd, e1, e2⟩ := retN_ok h
+        subst e2
+        exact binv_bindN _ _ _ (binv_addPlainNode st st1 hb _ _ _ hd e1)
+  case addAliasDecl b n name bd =>
+    simp only [step] at h
+    split at h
+    · cases h
+    · obtain ⟨st1, hd, e1, e2⟩ := retN_ok h
+      subst e2
+      exact binv_bindN _ _ _ (binv_addPlainNode st st1 hb _ _ _ hd e1)
 
 theorem run_binv (enc : String) : ∀ (cmds : List Cmd) (st st' : BuildState),
     (∀ c ∈ cmds, InL c) → BInv st → run enc st cmds = .ok st' → BInv st' := by
